@@ -610,6 +610,23 @@ def corpus_cases():
     ]
 
 
+def corpus_files():
+    """further regression inputs: corpus/C05/*.json, each a list of cases {srcs, evs, spec, sort}"""
+    import glob
+    import json
+    import os
+    out = []
+    for f in sorted(glob.glob(os.path.join(common.VERIF, 'corpus', 'C05', '*.json'))):
+        try:
+            with open(f) as fh:
+                for c in json.load(fh):
+                    out.append({'srcs': [tuple(x) for x in c['srcs']], 'evs': [list(e) for e in c['evs']],
+                                'spec': c['spec'], 'sort': bool(c.get('sort'))})
+        except (OSError, ValueError, KeyError, TypeError):
+            continue
+    return out
+
+
 def gen_incoming(rng, ns, ne, kind):
     if ne == 0 or ns == 0:
         return []
@@ -736,7 +753,8 @@ def run(ctx):
     rng = ctx.rng
     setup_criteria(ctx)
     terms, checks = [], []
-    cases = [dict(c, both=True, nosel=True) for c in corpus_cases()]
+    cases = [dict(c, both=True, nosel=True) for c in corpus_cases() + corpus_files()]
+    ctx.count('corpus_cases', len(cases))
     # every regime the property names, at least once
     fixed = []
     for ns in ([1, 2, 127, 128, 129, 200] if not ctx.thorough() else [1, 2, 3, 64, 127, 128, 129, 130, 200, 256, 257]):
@@ -757,7 +775,7 @@ def run(ctx):
         c = gen_case(ctx, rng, **f)
         if c is not None:
             cases.append(dict(c, both=(f['ns'] <= 12), nosel=(f['ns'] <= 3)))
-    n_cases = ctx.budget(110, 2200)
+    n_cases = ctx.budget(110, 3500)
     while len(cases) < n_cases:
         c = gen_case(ctx, rng)
         if c is not None:
@@ -768,11 +786,11 @@ def run(ctx):
     for c in cases[-3:]:
         ctx.sample({'n_sources': len(c['srcs']), 'n_events': len(c['evs']), 'method': shape(c['spec']),
                     'sources': [list(s) for s in c['srcs'][:3]], 'events_ra_dec': [e[:2] for e in c['evs'][:3]]})
-    for _ in range(ctx.budget(30, 400)):
+    for _ in range(ctx.budget(30, 600)):
         malformed_case(ctx, rng, terms, checks)
     eval_and_compare(ctx, 'c05', terms, checks)
     # large inputs: predicates on the implementation only (the list model would be slow, not different)
-    for i in range(ctx.budget(8, 80)):
+    for i in range(ctx.budget(8, 120)):
         ns = rng.choice([20, 100, 128, 129, 200])
         ne = rng.choice([200, 500, 1000, 2000])
         spec = rng.choice([['box', 0.1], ['and', ['box', 0.2], ['angerr', 0.1, 0.02, 0.3]], ['and', ['dec', 0.1], ['ra', 0.3]],
